@@ -373,3 +373,45 @@ def graph_gates(n):
     """Gate alphabet of the state graph in the order the C helper uses."""
     return [("h", q) for q in range(n)] + [("s", q) for q in range(n)] + \
            [("cz", a, b) for a, b in pair_list(n)]
+
+
+# --------------------------------------------------------------------------- presentations
+
+def presentations(gens, radius):
+    """Other generating sets of the same signed group.  radius 1: the generators
+    themselves, every ADD(i->j) (g_j := g_j*g_i) and every SWAPROW(i,j);
+    radius 'all': every ordered generating set (all invertible binary matrices)."""
+    n = len(gens)
+    if radius == 0:
+        return [list(gens)]
+    if radius == 1:
+        out = [list(gens)]
+        for i in range(n):
+            for j in range(n):
+                if i != j:
+                    g = list(gens)
+                    g[j] = mul(g[j], g[i])
+                    out.append(g)
+        for i in range(n):
+            for j in range(i + 1, n):
+                g = list(gens)
+                g[i], g[j] = g[j], g[i]
+                out.append(g)
+        return out
+    if radius == "all":
+        elems = expand(gens)       # index bit j <-> generator j
+        out = []
+        from itertools import product
+        for rows in product(range(1, 1 << n), repeat=n):
+            # invertible iff the rows are linearly independent over GF(2)
+            span = {0}
+            ok = True
+            for r in rows:
+                if r in span:
+                    ok = False
+                    break
+                span |= {v ^ r for v in span}
+            if ok:
+                out.append([elems[r] for r in rows])
+        return out
+    raise ValueError(radius)
